@@ -756,8 +756,13 @@ func (s *Search) poolFor(key string, pools [][]string) []string {
 
 // level expands every state of one BFS level on the worker pool and returns the next frontier.
 func (s *Search) level(strat string, front []item, lvl int, deadline time.Time, pools [][]string) (next []item, done bool, err error) {
+	if s.b.Light && lvl > 0 {
+		// families with membership events only: groups that can still take a joiner first (a full group has nothing but
+		// departures left) - what the time share does not reach is then the less eventful part
+		sort.SliceStable(front, func(i, j int) bool { return strings.Count(front[i].key, "|") < strings.Count(front[j].key, "|") })
+	}
 	// VERIF_SEED rotates the visiting order only
-	if n := len(front); n > 0 {
+	if n := len(front); n > 0 && !(s.b.Light && lvl > 0) {
 		off := (ev.Seed() * 7919) % n
 		if off < 0 {
 			off += n
